@@ -101,6 +101,7 @@ type rangeState struct {
 	vtype   types.Type
 	ktype   types.Type
 	str     bool
+	seq     int // order in which the range statements were started (the latest one belongs to the loop being cut)
 }
 
 type loopCtx struct {
@@ -836,4 +837,15 @@ func sortedKeys(m map[string]Term) []string {
 	}
 	sort.Strings(ks)
 	return ks
+}
+
+// mapCard: number of keys of map m. A map that is not empty has a key of its key type
+// (card.wit names one): emptiness can then be concluded from "no key of the key type is present".
+func (st *State) mapCard(m Term, kt, vt types.Type) Term {
+	has := st.mapHas(m, kt, vt)
+	c := UF(SI, "card", has)
+	w := UF(SI, "card.wit", has)
+	st.assume(Ge(c, TInt(0)))
+	st.assume(Or(Eq(c, TInt(0)), And(Sel(has, w), st.typeConstraint(w, kt))))
+	return c
 }
